@@ -230,6 +230,21 @@ pub broadcast axiom fn ax_str_str_eq_def<'a>(a: &'a str, b: &'a str)
     ensures #[trigger] <&'a str as PartialEqSpec<&'a str>>::eq_spec(&a, &b) == (a@ == b@);
 pub broadcast group string_eq3 { ax_str_str_eq_spec, ax_str_str_eq_def }
 
+// str::trim_end / trim_start / trim (std): the text without its trailing / leading white space
+pub uninterp spec fn ws_char(c: char) -> bool;
+pub open spec fn trimmed_end_of(r: Seq<char>, s: Seq<char>) -> bool {
+    r.len() <= s.len() && r == s.take(r.len() as int) && (forall|i: int| r.len() <= i < s.len() ==> ws_char(#[trigger] s[i])) && (r.len() > 0 ==> !ws_char(r[r.len() - 1]))
+}
+pub open spec fn trimmed_start_of(r: Seq<char>, s: Seq<char>) -> bool {
+    r.len() <= s.len() && r == s.skip(s.len() - r.len()) && (forall|i: int| 0 <= i < s.len() - r.len() ==> ws_char(#[trigger] s[i])) && (r.len() > 0 ==> !ws_char(r[0]))
+}
+pub assume_specification[str::trim_end](s: &str) -> (r: &str)
+    ensures trimmed_end_of(r@, s@);
+pub assume_specification[str::trim_start](s: &str) -> (r: &str)
+    ensures trimmed_start_of(r@, s@);
+pub assume_specification[str::trim](s: &str) -> (r: &str)
+    ensures exists|m: Seq<char>| #![trigger trimmed_end_of(m, s@)] trimmed_end_of(m, s@) && trimmed_start_of(r@, m);
+
 // String += &str (std AddAssign): always allowed; the resulting text is left unspecified
 use vstd::std_specs::ops::*;
 pub broadcast axiom fn ax_string_add_assign_req<'a>(s: String, rhs: &'a str)
